@@ -63,6 +63,27 @@ impl<const BUFFER_SIZE: usize, const MAX_STREAMS: usize> Crossbeam<BUFFER_SIZE, 
                 old(self).q@.len() > 0 ==> r == Ok::<u64, TryRecvError>(old(self).q@[0]) && final(self).q@ == old(self).q@.drop_first(),
                 old(self).q@.len() == 0 ==> r == Err::<u64, TryRecvError>(TryRecvError::Empty) && final(self).q == old(self).q,
     { unimplemented!() }
+    /// `first.retry_with_async(|item| ready(self.send(item))).yielding_forever().await`: re-sends until accepted, yielding to the executor in between (so the
+    /// consumers can make room): when it returns the item IS in the queue
+    #[verifier::external_body]
+    pub fn retry_async_yielding_forever(&mut self, first: RetryResult<u64>)
+        requires old(self).wf(), !(first is Fatal),
+        ensures final(self).wf(), first is Ok ==> final(self).q == old(self).q && final(self).streams_manager == old(self).streams_manager,
+                first matches RetryResult::Transient { input, .. } ==> final(self).q@.len() > 0 && final(self).q@.last() == input,
+    { }
+    /// the same with `.spinning_forever()`: busy-spins INSIDE the poll -- tolerable only when the first attempt cannot be refused (C20)
+    #[verifier::external_body]
+    pub fn retry_async_spinning_forever(&mut self, first: RetryResult<u64>)
+        requires first is Ok,
+        ensures final(self).q == old(self).q, final(self).streams_manager == old(self).streams_manager,
+    { }
+    /// any other keen-retry executor (`yielding_until_timeout`, `spinning_until_timeout`, a bounded number of attempts, ...) may GIVE UP: when it returns the
+    /// item may or may not have been accepted
+    #[verifier::external_body]
+    pub fn retry_async_may_give_up(&mut self, first: RetryResult<u64>)
+        requires old(self).wf(),
+        ensures final(self).wf(), first is Ok ==> final(self).q == old(self).q && final(self).streams_manager == old(self).streams_manager,
+    { }
     /// the `.await` of the async setter (R10): other producers / the consumers run meanwhile -- the queue is whatever they made of it
     #[verifier::external_body]
     pub fn suspend_point(&mut self)
@@ -137,11 +158,14 @@ FNS = [
     fn("send_with_async", props=["C01", "C16", "C20"],
        sig="pub fn send_with_async(&mut self, setter: Setter) -> (r: RetryResult<Setter>)", sig_anchor=r"async fn send_with_async<F:",
        rules=COMMON + [SETTER_VALUE,
-                       Rule("R15-retry-async", r"\.retry_with_async\(\|item\| future::ready\(self\.send\(item\)\)\)\s*\.(yielding|spinning)_forever\(\)\s*\.await", r".retry_\1_forever()", count=1,
-                            note="keen-retry async retry -> shim (yielding: may wait; spinning: requires the first attempt to have been accepted)")],
+                       Rule("R15-retry-async", r"self\.send\(item\)\s*\.retry_with_async\(\|item\| future::ready\(self\.send\(item\)\)\)\s*\.(\w+)\(([^;]*?)\)\s*\.await;",
+                            lambda m: "{ let first__ = self.send(item); self.retry_async_" + (m.group(1) if m.group(1) in ("yielding_forever", "spinning_forever") else "may_give_up") + "(first__); }", count=1,
+                            note="keen-retry async retry -> channel-level shim (yielding_forever: returns once accepted; spinning_forever: requires the first attempt accepted; any other executor may give up)")],
        requires="old(self).wf()",
        ensures="old(self).q@.len() >= BUFFER_SIZE ==> (r matches RetryResult::Transient { input, .. } && input == setter) && final(self).q == old(self).q && final(self).streams_manager == old(self).streams_manager,"
-               "old(self).q@.len() < BUFFER_SIZE ==> r is Ok"),
+               "old(self).q@.len() < BUFFER_SIZE ==> r is Ok,"
+               # an Ok answer means the event IS in the queue (C01 C02: accepted => delivered): a retry that may give up must not be answered Ok
+               "r is Ok ==> final(self).q@.len() > 0 && final(self).q@.last() == setter.value@"),
     fn("consume", impl=IMPL_C, props=["C01", "C02"],
        sig="pub fn consume(&mut self, stream_id: u32) -> (r: Option<u64>)", sig_anchor=r"fn consume\(&self, stream_id: u32\) -> Option<ItemType>",
        rules=COMMON,
